@@ -70,6 +70,9 @@ theories/C22/Proofs.vos theories/C22/Proofs.vok theories/C22/Proofs.required_vos
 theories/C22/Props.vo theories/C22/Props.glob theories/C22/Props.v.beautified theories/C22/Props.required_vo: theories/C22/Props.v theories/C22/Model.vo theories/C22/Proofs.vo
 theories/C22/Props.vio: theories/C22/Props.v theories/C22/Model.vio theories/C22/Proofs.vio
 theories/C22/Props.vos theories/C22/Props.vok theories/C22/Props.required_vos: theories/C22/Props.v theories/C22/Model.vos theories/C22/Proofs.vos
+theories/C23/Model.vo theories/C23/Model.glob theories/C23/Model.v.beautified theories/C23/Model.required_vo: theories/C23/Model.v 
+theories/C23/Model.vio: theories/C23/Model.v 
+theories/C23/Model.vos theories/C23/Model.vok theories/C23/Model.required_vos: theories/C23/Model.v 
 theories/C25/Examples.vo theories/C25/Examples.glob theories/C25/Examples.v.beautified theories/C25/Examples.required_vo: theories/C25/Examples.v theories/Base/Tactics.vo theories/Lib/ArchTree.vo theories/C25/Model.vo
 theories/C25/Examples.vio: theories/C25/Examples.v theories/Base/Tactics.vio theories/Lib/ArchTree.vio theories/C25/Model.vio
 theories/C25/Examples.vos theories/C25/Examples.vok theories/C25/Examples.required_vos: theories/C25/Examples.v theories/Base/Tactics.vos theories/Lib/ArchTree.vos theories/C25/Model.vos
